@@ -16,7 +16,7 @@ import (
 func init() {
 	mon.Register(&mon.Prop{
 		ID: "C10", Level: "exploration",
-		Rule: "layouts: a random A/C/G/T background of 20..3000 bases (scrubbed of accidental sites) with 0..6 recognition sites written at chosen positions and orientations, linear or circular, for BsaI, BbsI, BtgZI (through CutWithEnzymeByName) and custom non-palindromic enzymes (site 5..7, skip 0..14, overhang 2..5); layouts outside the property's restrictions (overlapping occurrences, a paired cut closer than two overhang lengths, coinciding cut points) are redrawn; rotation sweep: every rotation of circular plasmids of 20..300 bases, each in random letter case; non-trivial = at least one site; distinct by hash of (enzyme, stored sequence, topology)",
+		Rule: "layouts: a random A/C/G/T background of 20..3000 bases (scrubbed of accidental sites) with 0..6 recognition sites written at chosen positions and orientations, linear or circular, for BsaI, BbsI, BtgZI (through CutWithEnzymeByName) and custom non-palindromic enzymes (site 5..7, skip 0..14, overhang 2..5); layouts outside the property's restrictions (overlapping occurrences, a paired cut closer than two overhang lengths, coinciding cut points) are redrawn; rotation sweep: every rotation of circular plasmids of 20..300 bases, each in random letter case; concatemers: two to four copies of one 30..200-base unit with 2..4 sites in a row (optionally with A/T spacers between copies), linear or circular, whose digest releases textually identical fragments; non-trivial = at least one site; distinct by hash of (enzyme, stored sequence, topology)",
 		Assumptions: []string{
 			"oracle: modular-arithmetic model of Type IIS geometry (internal/oracle/digest.go); cross-checked per case against a naive linear evaluator on a rotation whose origin lies outside every site, cut span and fragment, and against the generator's own list of placed sites",
 			"the harness's transcription of BsaI GGTCTC(1/5), BbsI GAAGAC(2/6), BtgZI GCGATG(10/14) from REBASE is the specification of the built-in enzymes",
@@ -24,7 +24,7 @@ func init() {
 		},
 		Shards: tierShards(8, 16), WatchdogSec: tierSecs(600, 3600),
 		MinStats: func(string) map[string]int64 {
-			return map[string]int64{"fragments_expected": 500, "rotations_checked": 2000, "origin_straddles_site_or_cut": 200, "linear_end_cases": 50}
+			return map[string]int64{"fragments_expected": 500, "rotations_checked": 2000, "origin_straddles_site_or_cut": 200, "linear_end_cases": 50, "concatemers_releasing_textually_identical_fragments": 100}
 		},
 		Run: runC10,
 	})
@@ -518,6 +518,62 @@ func runC10(w *mon.W) {
 		w.Add("fragments_expected", int64(len(want)))
 		w.Add(fmt.Sprintf("layouts_with_%d_sites", len(lay.placed)), 1)
 		w.SetAdd("enzymes", clip(e.String(), 60))
+	}
+	// concatemers: the same unit two to four times in a row (tandem cassettes, arrays of one spacer flanked by sites),
+	// so that the digest releases textually identical fragments, adjacent or not; each copy is a fragment of its own
+	nCat := w.Pick(3000, 150000)
+	for i := 0; i < nCat; i++ {
+		id := fmt.Sprintf("concatemer-%d", i)
+		idx++
+		if !w.Want(id, idx) {
+			continue
+		}
+		r := w.Rand(id)
+		e := c10RandEnzyme(r)
+		unit, ok := c10Place(r, e, 30+r.Intn(171), false, 2+r.Intn(3), false)
+		if !ok {
+			w.Add("layouts_redrawn_out", 1)
+			continue
+		}
+		copies := 2 + r.Intn(3)
+		seq := ""
+		for c := 0; c < copies; c++ {
+			seq += unit.seq
+			if r.Intn(3) == 0 && c < copies-1 {
+				// a different spacer between two copies: the equal fragments are then not neighbours of equal neighbours
+				seq += randString(r, "AT", 1+r.Intn(12))
+			}
+		}
+		circular := r.Intn(2) == 0
+		lay := c10Layout{enz: e, seq: seq, circular: circular, placed: oracle.FindSites(seq, circular, e.geo)}
+		model, st := oracle.Digest(seq, circular, e.geo)
+		if !st.OK() || len(lay.placed) != copies*len(unit.placed) {
+			w.Add("layouts_redrawn_out", 1)
+			continue
+		}
+		if !c10SelfCheck(w, id, lay, model) {
+			continue
+		}
+		want := c10Keys(model)
+		repeated := 0
+		for j := 1; j < len(want); j++ {
+			if want[j] == want[j-1] {
+				repeated++
+			}
+		}
+		w.Begin(id, fmt.Sprintf("%s circular=%v %d copies of a %d-base unit: %s", e, circular, copies, len(unit.seq), seq))
+		held := c10Judge(w, id, lay, randCase(r, seq, []float64{0, 0, 0.5, 1}[r.Intn(4)]), want, fmt.Sprintf("concatemer of %d copies of a %d-base unit", copies, len(unit.seq)))
+		if held && circular {
+			k := r.Intn(len(seq))
+			w.Add("rotations_checked", 1)
+			c10Judge(w, id, lay, rotate(seq, k), want, fmt.Sprintf("rotation by %d of a concatemer of %d copies of a %d-base unit", k, copies, len(unit.seq)))
+		}
+		w.End()
+		w.Add("concatemers", 1)
+		if repeated > 0 {
+			w.Add("concatemers_releasing_textually_identical_fragments", 1)
+		}
+		w.Add("fragments_expected", int64(len(want)))
 	}
 	w.Extra("exhaustive_parts", []string{"every rotation of every generated circular plasmid of 20..300 bases"})
 	w.Extra("exhaustive", false)
